@@ -2,7 +2,7 @@
     Only statements, closed by [exact], with their assumptions printed and pinned. *)
 From DL Require Import Lib.Bytes Model.StringLit Proof.StringLitBasics Proof.StringLitFacts
   Proof.StringLitSegment.
-From DL Require Import Lib.F64 Lua.Syntax Model.NumberLit Model.NumberWrite Model.NumberValue Proof.NumberWrite Proof.NumberWriteValue.
+From DL Require Import Lib.F64 Lua.Syntax Model.NumberLit Model.NumberWrite Model.NumberValue Proof.NumberWrite Proof.NumberWriteValue Proof.NumberWriteAll.
 From Coq Require Import Floats.SpecFloat.
 Open Scope N_scope.
 
@@ -159,6 +159,18 @@ Check C13_write_dec_int_value_kept : forall (neg : bool) m, m < 2 ^ 53 ->
   write_number_model (NDec (to_bits (if neg then fneg (of_N m) else of_N m)) None)
     = Some (write_dec_int neg m) /\
   value_kept (NDec (to_bits (if neg then fneg (of_N m) else of_N m)) None) (write_dec_int neg m) = true.
+
+(** Capstone: for EVERY node on which the writer model is defined - every hexadecimal and binary
+    node, every non-finite decimal node, the zeros, and every finite decimal node without recorded
+    exponent whose value is an integer below 2^53 in magnitude, given by its bit pattern - the
+    written text satisfies the per-run oracle.  What remains per run for these arms is only that the
+    code writes the bytes the model writes. *)
+Theorem C13_write_number_model_value_kept : forall n t, number_wf n ->
+  write_number_model n = Some t -> value_kept n t = true.
+Proof. exact write_number_model_value_kept. Qed.
+Print Assumptions C13_write_number_model_value_kept.
+Check C13_write_number_model_value_kept : forall n t, number_wf n ->
+  write_number_model n = Some t -> value_kept n t = true.
 
 Example C13_example_hex :
   write_hex 255 true (Some (4, false)) = of_string "0Xffp4" /\
